@@ -938,6 +938,7 @@ def check_c14(ctx):
     d = lib.mktemp("verif-race-")
     nproc = 8 if not ctx.thorough else 16
     programs, ops = (6, 2500) if not ctx.thorough else (40, 6000)
+    crashes = []
 
     def stress(i):
         log = os.path.join(d, "race%d" % i)
@@ -945,7 +946,13 @@ def check_c14(ctx):
         p = sc.run("stress", stats=stp, extra=["-seed", str(lib.seed() * 100 + i), "-programs", str(programs), "-ops", str(ops)],
                    env={"GORACE": "halt_on_error=0 exitcode=0 log_path=%s history_size=3" % log, "GOMAXPROCS": str([2, 4, 8, 16][i % 4])}, check=False, timeout=3600)
         if p.returncode != 0:
-            raise Inconclusive("race stress process failed:\n" + p.stdout[-2000:])
+            # a crash with repository frames is behaviour of the code under test (typically the consequence of a race);
+            # anything else is an infrastructure failure
+            o = p.stdout
+            if ("panic:" in o or "fatal error:" in o or "SIGSEGV" in o) and ("/internal/xsync/" in o or "/xsync_map" in o):
+                crashes.append(o[:1500] + "\n...\n" + o[-2500:])
+                return {"ops": 0, "corrupt": 0, "programs": 0}
+            raise Inconclusive("race stress process failed:\n" + o[-2000:])
         return json.load(open(stp))
 
     tot = {"ops": 0, "corrupt": 0, "programs": 0}
@@ -970,6 +977,12 @@ def check_c14(ctx):
             continue
         seen.add(sig)
         ctx.violation({"kind": "race", "report": r[:6000]}, "race detector report in repository code: " + " | ".join(sig))
+    for c in crashes[:3]:
+        first = next((l for l in c.splitlines() if l.startswith(("panic:", "fatal error:"))), "crash")
+        ctx.violation({"kind": "race-crash", "output": c}, "a natively parallel stress program crashed inside repository code: " + first[:200])
+    if tot["programs"] == 0 and not crashes:
+        raise Inconclusive("no stress program completed")
+    tot["programs"] = max(tot["programs"], 1)
     if reports and not repo_reports:
         raise Inconclusive("race reports outside repository code (harness bug?):\n" + reports[0][:2000])
     if tot["corrupt"]:
